@@ -8,6 +8,8 @@ for d in sorted(glob.glob("/verif/seeded/*")):
         s = " ".join(str(s).split()).replace("|", "/")
         return s[:n] + ("..." if len(s) > n else "")
     caught = ", ".join(m.get("caught_by") or []) or "-"
+    if m.get("note"):
+        caught += " (" + clean(m["note"], 200) + ")"
     if m.get("status"):
         caught += " (" + clean(m["status"], 120) + ")"
     print(f"| {os.path.basename(d)} | {clean(m.get('summary',''), 230)} | {clean(m.get('needs_to_manifest',''), 200)} | {caught} |")
